@@ -1414,40 +1414,53 @@ Section ANP.
           match goal with Y : below n (_ ++ _) |- _ => apply below_app in Y as [_ Y]; exact Y end. }
         apply (np_bind _ (fun t n => t < n)); [apply mono_and; [exact MG0|mn]|eapply np_pre; [|now apply np_var_ty]; unfold PG0; pc|intros self_ty].
         apply (np_bind _ (fun r n => r < n)); [apply mono_and; [apply mono_and; [exact MG0|mn]|mn]|apply np_unify'; pc|intros ?].
-        apply (np_bind _ (fun i n => i < n)); [apply mono_and; [apply mono_and; [apply mono_and; [exact MG0|mn]|mn]|mn]
-                                               |eapply np_pre; [|apply np_push_type]; intros; constructor|intros ret0].
-        set (PG1 := fun n : positive => ((((PG0 n /\ given_blob < n) /\ self_ty < n) /\ a < n) /\ ret0 < n)).
-        assert (MG1 : mono PG1) by (unfold PG1; apply mono_and; [apply mono_and; [apply mono_and; [apply mono_and; [exact MG0|mn]|mn]|mn]|mn]).
-        apply (np_bind PG1 (fun _ _ => True)); [exact MG1| |intros _].
-        { apply np_iterM_in; [exact MG1|]. intros fe Hin. rewrite forallb_forall in Hf. specialize (Hf _ Hin).
-          apply (np_bind _ Qe); [exact MG1|eapply np_pre; [|now apply (an_expr R PR)]; unfold PG1, PG0; pc|intros [iret ety]].
-          apply (np_bind _ (fun r n => obelow n r)); [apply mono_and; [exact MG1|mn]|apply np_unify_option'; unfold PG1; pc|intros ?].
-          destruct (flookup (fst fe) given) as [[gsp ft]|] eqn:Eg.
-          - apply (np_bind _ (fun r n => r < n)); [apply mono_and; [apply mono_and; [exact MG1|mn]|mn]| |intros ?; apply np_ret; auto].
-            apply np_unify'. unfold PG1, PG0. intros n X. dcmp. cbn [fst snd] in *. split; [assumption|]. eapply flookup_below; eassumption.
-          - (* unreachable: every field has a key in the map *)
-            intros s0 Gs0 Hp0. exfalso. unfold PG1, PG0 in Hp0. dcmp.
-            assert (Hk : fmem (fst fe) given = true) by (match goal with X : forall k, In k (map fst fields) -> _ |- _ => apply X end; apply in_map; exact Hin).
-            unfold fmem in Hk. rewrite Eg in Hk. discriminate. }
+        set (PG1 := fun n : positive => (((PG0 n /\ given_blob < n) /\ self_ty < n) /\ a < n)).
+        assert (MG1 : mono PG1) by (unfold PG1; apply mono_and; [apply mono_and; [apply mono_and; [exact MG0|mn]|mn]|mn]).
+        apply (np_bind PG1 (fun r n => obelow n r)); [exact MG1| |intros ret0].
+        { eapply np_pre; [|apply (np_foldM_in PG1 (fun (r : option tyid) n => obelow n r))].
+          - intros n X. split; [exact X|exact I].
+          - exact MG1.
+          - intros b0; mn.
+          - intros acc fe Hin. rewrite forallb_forall in Hf. specialize (Hf _ Hin).
+            apply (np_bind _ Qe); [apply mono_and; [exact MG1|mn]|eapply np_pre; [|now apply (an_expr R PR)]; unfold PG1, PG0; pc|intros [iret ety]].
+            apply (np_bind _ (fun r n => obelow n r)); [apply mono_and; [apply mono_and; [exact MG1|mn]|mn]|apply np_unify_option'; unfold PG1; pc|intros acc'].
+            destruct (flookup (fst fe) given) as [[gsp ft]|] eqn:Eg.
+            + apply (np_bind _ (fun r n => r < n)); [apply mono_and; [apply mono_and; [apply mono_and; [exact MG1|mn]|mn]|mn]| |intros ?; apply np_ret; pc].
+              apply np_unify'. unfold PG1, PG0. intros n X. dcmp. cbn [fst snd] in *. split; [assumption|]. eapply flookup_below; eassumption.
+            + (* unreachable: every field has a key in the map *)
+              intros s0 Gs0 Hp0. exfalso. unfold PG1, PG0 in Hp0. dcmp.
+              assert (Hk : fmem (fst fe) given = true) by (match goal with X : forall k, In k (map fst fields) -> _ |- _ => apply X end; apply in_map; exact Hin).
+              unfold fmem in Hk. rewrite Eg in Hk. discriminate. }
         apply (np_bind _ (fun r n => r < n)); [apply mono_and; [exact MG1|mn]|apply np_unify'; unfold PG1, PG0; pc|intros u].
         apply np_ret. unfold PG1. pc.
       - (* ECollection *)
         rewrite e_ok_coll in H. destruct c.
-        + apply (np_bind _ (fun i n => i < n)); [mn|eapply np_pre; [|apply np_push_type]; intros; constructor|intros ret0].
-          apply (np_bind _ (fun tys n => Forall (fun y => y < n) tys)); [mn| |intros tys].
-          { apply (np_mapM_in (fun n => N0 <= n /\ ret0 < n) (fun t n => t < n)); [mn|intros b; mn|].
-            intros v Hin. rewrite forallb_forall in H. specialize (H _ Hin).
-            apply (np_bind _ Qe); [mn|eapply np_pre; [|now apply (an_expr R PR)]; pc|intros [iret t]].
-            apply (np_bind _ (fun r n => obelow n r)); [mn|apply np_unify_option'; pc|intros ?]. apply np_ret. pc. }
-          apply (np_bind _ (fun i n => i < n)); [mn; try (intros n n' Hn; apply Forall_impl; intros; lia)|eapply np_pre; [|apply np_push_type]; pc|intros t].
+        + apply (np_bind _ (fun (r : option tyid * list tyid) n => obelow n (fst r) /\ Forall (fun y => y < n) (snd r))); [mn| |intros [ret0 tys]].
+          { eapply np_pre; [|apply (np_foldM_in (fun n => N0 <= n) (fun (r : option tyid * list tyid) n => obelow n (fst r) /\ Forall (fun y => y < n) (snd r)))].
+            - intros n X. split; [exact X|]. split; [exact I|constructor].
+            - mn.
+            - intros b0. apply mono_and; [mn|]. intros n n' Hn. apply Forall_impl. intros; lia.
+            - intros acc v Hin. rewrite forallb_forall in H. specialize (H _ Hin).
+              assert (MF : mono (fun n => N0 <= n /\ (obelow n (fst acc) /\ Forall (fun y => y < n) (snd acc)))).
+              { apply mono_and; [mn|]. apply mono_and; [mn|]. intros n n' Hn. apply Forall_impl. intros; lia. }
+              apply (np_bind _ Qe); [exact MF|eapply np_pre; [|now apply (an_expr R PR)]; pc|intros [iret t]].
+              apply (np_bind _ (fun r n => obelow n r)); [apply mono_and; [exact MF|mn]|apply np_unify_option'; pc|intros r'].
+              apply np_ret. intros n X. dcmp. cbn [fst snd] in *. split; [assumption|]. apply Forall_app. split; [assumption|].
+              constructor; [assumption|constructor]. }
+          cbn [fst snd].
+          apply (np_bind _ (fun i n => i < n)); [apply mono_and; [mn|]; apply mono_and; [mn|]; intros n n' Hn; apply Forall_impl; intros; lia
+                                                |eapply np_pre; [|apply np_push_type]; pc|intros t].
           apply np_ret. pc.
         + apply (np_bind _ (fun i n => i < n)); [mn|eapply np_pre; [|apply np_push_type]; intros; constructor|intros inner].
-          apply (np_bind _ (fun i n => i < n)); [mn|eapply np_pre; [|apply np_push_type]; intros; constructor|intros ret0].
-          apply (np_bind _ (fun _ _ => True)); [mn| |intros _].
-          { apply np_iterM_in; [mn|]. intros v Hin. rewrite forallb_forall in H. specialize (H _ Hin).
-            apply (np_bind _ Qe); [mn|eapply np_pre; [|now apply (an_expr R PR)]; pc|intros [eret et]].
-            apply (np_bind _ (fun r n => r < n)); [mn|apply np_unify'; pc|intros ?].
-            apply (np_bind _ (fun r n => obelow n r)); [mn|apply np_unify_option'; pc|intros ?]. apply np_ret. auto. }
+          apply (np_bind _ (fun r n => obelow n r)); [mn| |intros ret0].
+          { eapply np_pre; [|apply (np_foldM_in (fun n => N0 <= n /\ inner < n) (fun (r : option tyid) n => obelow n r))].
+            - intros n X. split; [exact X|exact I].
+            - mn.
+            - intros b0; mn.
+            - intros acc v Hin. rewrite forallb_forall in H. specialize (H _ Hin).
+              apply (np_bind _ Qe); [mn|eapply np_pre; [|now apply (an_expr R PR)]; pc|intros [eret et]].
+              apply (np_bind _ (fun r n => r < n)); [mn|apply np_unify'; pc|intros ?].
+              apply np_unify_option'. pc. }
           apply (np_bind _ (fun i n => i < n)); [mn|eapply np_pre; [|apply np_push_type]; intros n X; dcmp; cbn [tyh_ids]; constructor; [assumption|constructor]|intros t].
           apply np_ret. pc.
       - apply (np_bind _ (fun i n => i < n)); [mn|eapply np_pre; [|apply np_push_type]; intros; constructor|intros t]. apply np_ret. pc.
